@@ -1673,34 +1673,31 @@ impl Relation {
         builder.token(R_ANGLE.into(), ">");
         builder.finish_node();
 
-        let node_profiles = self.0.children().find(|n| n.kind() == PROFILES);
-        if let Some(node_profiles) = node_profiles {
-            let new_root = SyntaxNode::new_root_mut(builder.finish());
-            self.0.splice_children(
-                node_profiles.index()..node_profiles.index() + 1,
-                vec![new_root.into()],
-            );
+        // Add the new restriction list after any existing ones
+        let last_profiles = self.0.children().filter(|n| n.kind() == PROFILES).last();
+        let idx = if let Some(last_profiles) = last_profiles {
+            last_profiles.index() + 1
         } else {
-            let idx = self.0.children_with_tokens().count();
-            let new_root = SyntaxNode::new_root_mut(self.0.green().splice_children(
-                idx..idx,
-                vec![
-                    GreenToken::new(WHITESPACE.into(), " ").into(),
-                    builder.finish().into(),
-                ],
-            ));
-            if let Some(parent) = self.0.parent() {
-                parent.splice_children(self.0.index()..self.0.index() + 1, vec![new_root.into()]);
-                self.0 = parent
-                    .children_with_tokens()
-                    .nth(self.0.index())
-                    .unwrap()
-                    .clone()
-                    .into_node()
-                    .unwrap();
-            } else {
-                self.0 = new_root;
-            }
+            self.0.children_with_tokens().count()
+        };
+        let new_root = SyntaxNode::new_root_mut(self.0.green().splice_children(
+            idx..idx,
+            vec![
+                GreenToken::new(WHITESPACE.into(), " ").into(),
+                builder.finish().into(),
+            ],
+        ));
+        if let Some(parent) = self.0.parent() {
+            parent.splice_children(self.0.index()..self.0.index() + 1, vec![new_root.into()]);
+            self.0 = parent
+                .children_with_tokens()
+                .nth(self.0.index())
+                .unwrap()
+                .clone()
+                .into_node()
+                .unwrap();
+        } else {
+            self.0 = new_root;
         }
     }
 
